@@ -2,7 +2,7 @@
 from harness import common as C
 from harness.props.c13 import ctree
 
-FILES = ["Containers/VSpace.v", "Containers/VSpaceProof.v", "Containers/ContainerOps.v",
+FILES = ["Containers/VSpace.v", "Containers/VSpaceProof.v", "Containers/ContainerOps.v", "Containers/ContainerSlice.v",
          "Containers/ContainerProof.v", "Containers/Run13.v", "Props/C12.v"]
 RULE = ("random nested containers (depth <= 3, arity 0..4, empty containers, key sets) with integer-valued leaves; "
         "one container primitive per case (integer index incl. negative and out of range, slices with None/negative/"
